@@ -56,13 +56,16 @@ theorem C11_roundtrip_after_rejected (E : AEAD) {A B : Ctx} (hA : A.wf) (hAB : S
   rw [sessionRun_rejected_state E B forged st hrej]
   obtain ⟨_, _, _, _, _, _, hrp⟩ := recv_request (B := B) hA hAB h
   have hn : requestSeqno B P.outer = some seq := requestSeqno_of_recvParams hrp
-  have hcode : isResponse P.outer.code = false := by
+  have hpf : P.outer.code = 2 ∨ P.outer.code = 5 := by
     obtain ⟨hreq, _, _, _, _, _, _, _, _, hP⟩ := protect_request_shape h
     subst hP
-    exact isResponse_of_post_fetch (outerCode_request hreq)
+    exact outerCode_request hreq
+  have hcode : isResponse P.outer.code = false := isResponse_of_post_fetch hpf
+  have hbad : (!(P.outer.code == 2 || P.outer.code == 5)) = false := by
+    rcases hpf with h2 | h2 <;> simp [h2]
   have hflag : replayFlag st seq = false := by simp [replayFlag, hw, hv]
   unfold sessionStep
-  simp only [hcode, Bool.false_eq_true, ↓reduceIte, hn, hflag, Bool.false_and,
+  simp only [hcode, hbad, Bool.false_eq_true, ↓reduceIte, hn, hflag, Bool.false_and,
     C11_roundtrip_request E hA hAB h, afterDecrypt]
   rfl
 
@@ -79,6 +82,9 @@ theorem C11_echo_challenge_cannot_reuse_nonce (E : AEAD) (B : Ctx) (st : RState)
     by_cases hr : isResponse o.code = true
     · simp [hr] at h
     simp only [hr, Bool.false_eq_true, ↓reduceIte] at h
+    by_cases hc : (!(o.code == 2 || o.code == 5)) = true
+    · simp [hc] at h
+    simp only [hc, Bool.false_eq_true, ↓reduceIte] at h
     cases hn : requestSeqno B o with
     | none => simp only [hn] at h; cases hu : unprotect E B none o <;> simp [hu] at h
     | some n =>
@@ -120,6 +126,9 @@ theorem C11_reusable_only_when_struck (E : AEAD) (B : Ctx) (st : RState) (o : Ms
   by_cases hr : isResponse o.code = true
   · simp [hr] at h
   simp only [hr, Bool.false_eq_true, ↓reduceIte] at h ⊢
+  by_cases hc : (!(o.code == 2 || o.code == 5)) = true
+  · simp [hc] at h
+  simp only [hc, Bool.false_eq_true, ↓reduceIte] at h ⊢
   cases hn : requestSeqno B o with
   | none => simp only [hn] at h; cases hu : unprotect E B none o <;> simp [hu] at h
   | some n =>
